@@ -119,19 +119,23 @@ G("read_demand_active_pdu", impl=r"impl Client", props=["C06", "C12", "C03"], ke
          (r"for capability_set in", 1, "let ghost caps = pdu.message.fields()[6].1->Arr_0;", "before")],
   # C03 "carries the identifiers the server assigned": the share id kept for the confirm-active / finalization PDUs is the shareId field of
   # THIS demand-active (every activation, not only the first one), relative to the parsed structure
-  claims=[(r"return Ok\(false\)", 1, "proof { assert(!(pdu.pdu_type is PdutypeDemandactivepdu)); }", "before", "C12,C03", "every-demand-active-is-answered"),
-          (r"return Ok\(true\)", 1, """proof {
+  claims=[(r"(?:return )?Ok\(false\)", 0, "proof { assert(!(pdu.pdu_type is PdutypeDemandactivepdu)); }", "before", "C12,C03", "every-demand-active-is-answered"),
+          (r"(?:return )?Ok\(true\)", 1, """proof {
             assert(pdu.message.fields()[0].0 == "shareId"@ && pdu.message.fields()[0].1 is U32);
             assert(self.share() == Some(pdu.message.fields()[0].1->U32_0)); }""", "before", "C03,C12", "share-id-is-this-demand-actives")],
   loops={1: """invariant
             it.seq().len() == caps.len(), forall|k: int| 0 <= k < it.seq().len() ==> (#[trigger] it.seq()[k]).fview() == caps[k], cap_sets_ok(caps),
             self.st() == old(self).st() && self.same_config(old(self)) && self.share() == old(self).share(),"""})
-G("read_synchronize_pdu", impl=r"impl Client", props=["C06", "C12"], keys=True, ensures=STATE_FRAME + [(None, "share", "final(self).share() == old(self).share()")])
+# C12 "advance only on the expected PDU": `Ok(true)` (= the expected PDU was read) is returned only from a share DATA pdu (every exit that says so)
+G("read_synchronize_pdu", impl=r"impl Client", props=["C06", "C12", "C03"], keys=True, ensures=STATE_FRAME + [(None, "share", "final(self).share() == old(self).share()")],
+  claims=[(r"(?:return )?Ok\(true\)", 0, "proof { assert(pdu.pdu_type is PdutypeDatapdu); }", "before", "C12,C03", "expected-pdu-reported-only-for-a-data-pdu")])
 G("read_control_pdu", impl=r"impl Client", props=["C06", "C12", "C03"], keys=True, ensures=STATE_FRAME + [(None, "share", "final(self).share() == old(self).share()")],
   # C12 "advance only on the expected PDU": a control PDU is accepted (Ok(true)) only when its action field is the expected action
-  claims=[(r"Ok\(true\)\s*\}\s*$", 1, """proof { let f = data_pdu.message.fields(); let a = f[first_key(f, "action"@)].1;
+  claims=[(r"(?:return )?Ok\(true\)", 0, "proof { assert(pdu.pdu_type is PdutypeDatapdu); }", "before", "C12,C03", "expected-pdu-reported-only-for-a-data-pdu"),
+          (r"Ok\(true\)\s*\}\s*$", 1, """proof { let f = data_pdu.message.fields(); let a = f[first_key(f, "action"@)].1;
             assert(a is U16 && a->U16_0 == action as u16); }""", "before", "C12,C03", "control-accepted-only-with-the-expected-action")])
-G("read_font_map_pdu", impl=r"impl Client", props=["C06", "C12"], keys=True, ensures=STATE_FRAME + [(None, "share", "final(self).share() == old(self).share()")])
+G("read_font_map_pdu", impl=r"impl Client", props=["C06", "C12", "C03"], keys=True, ensures=STATE_FRAME + [(None, "share", "final(self).share() == old(self).share()")],
+  claims=[(r"(?:return )?Ok\(true\)", 0, "proof { assert(pdu.pdu_type is PdutypeDatapdu); }", "before", "C12,C03", "expected-pdu-reported-only-for-a-data-pdu")])
 # rule R6: Verus' for-loops do not support `continue`: the loop over the parsed PDUs is spelled as an index loop (increment first, same order, same elements)
 G("read_data_pdu", impl=r"impl Client", props=["C06", "C12", "C11"], keys=True,
   body_sub=[(r"for pdu in message\.inner\(\) \{", "let __items = message.inner(); let mut __i: usize = 0; while __i < __items.len() { let pdu = &__items[__i]; __i += 1;")],
@@ -227,7 +231,7 @@ pub proof fn lemma_visit_slice(d: DataType, m: MV)
 }
 """, mod="global", name="event_specs"))
 R9_SIG = [(r"<T>\(", "("), (r"mut callback: T", "callback: &mut EventSink"), (r"\s*where T: FnMut\(RdpEvent\)\s*", " ")]
-G("read_fast_path", impl=r"impl Client", props=["C06", "C10", "C12"], keys=True,
+G("read_fast_path", impl=r"impl Client", props=["C06", "C10", "C12", "C19"], keys=True,
   sig_sub=R9_SIG, body_sub=[(r"callback\(RdpEvent::Bitmap\(", "callback.call(RdpEvent::Bitmap(")],
   ensures=STATE_FRAME + [("C10", "appends-only", "appended_only(old(callback).calls(), final(callback).calls())"),
                          ("C10", "bitmap-events-only", "forall|k: int| old(callback).calls().len() <= k < final(callback).calls().len() ==> #[trigger] final(callback).calls()[k] is Bitmap")],
@@ -239,7 +243,7 @@ G("read_fast_path", impl=r"impl Client", props=["C06", "C10", "C12"], keys=True,
          (r"cast!\(DataType::Trame, order\.message\[\"rectangles\"\]\)\?", 1, "it2:", "at"),
          (r"let bitmap = cast!\(DataType::Component, rectangle\)\?;", 1, "proof { lemma_keys(); }\n" + VISIT),
          (r"\.to_vec\(\)\s*\}\s*\)\);", 1, "proof { n_rects = n_rects + 1; }")],
-  claims=[(r"\.to_vec\(\)\s*\}\s*\)\);", 1, "proof { assert(is_event_of(callback.calls()[c0.len() + it2.index@], bitmap.fields())); }", "after", "C10", "event-built-from-this-rectangle-verbatim")],
+  claims=[(r"\.to_vec\(\)\s*\}\s*\)\);", 1, "proof { assert(is_event_of(callback.calls()[c0.len() + it2.index@], bitmap.fields())); }", "after", "C10,C19", "event-built-from-this-rectangle-verbatim")],
   loops={1: """invariant
             self.st() == old(self).st() && self.same_config(old(self)),
             appended_only(old(callback).calls(), callback.calls()),
